@@ -554,7 +554,11 @@ def write_evidence(prop, tier, seed, units, results, all_obs, infra, violations,
         },
         'assumptions': extra.get('assumptions', []) + [
             'every external_body / assume_specification / uninterp item listed in coverage.trusted_base',
-            'the block cipher is a fixed function of its input block (D8)'],
+            'the block cipher is a fixed function of its input block (D8)',
+            'lemma hypotheses where stated: the cipher is length preserving, D after E is the identity (round-trip / resume lemmas), every keystream block has the block size (byte-wrapper lemmas)',
+            'cfg(feature = "zeroize") and cfg(feature = "block-padding") are taken as enabled by the extraction; usize is 64 bits',
+            'bounded stages (native random search, Kani harnesses) are exploration / bounded stand-ins and are not counted in obligations/discharged',
+            'termination of exec functions is not claimed beyond what Verus requires (decreases on loops it asks for)'],
         'wall_s': round(wall, 2),
         'violations': len(violations),
     }
